@@ -76,6 +76,31 @@ def blocked_by_thread_count(result, vals):
         result[0] += partial[b]
 
 
+@numba.jit(nopython=True, parallel=True)
+def int_reduction(vals):
+    acc = 0
+    for i in numba.prange(len(vals)):
+        acc += vals[i]
+    return acc
+
+
+@numba.jit(nopython=True, parallel=True)
+def strided(result, vals):
+    for i in numba.prange(1, len(vals), 2):
+        result[i] = vals[i] * 2.0
+
+
+@numba.jit(nopython=True)
+def callee_kw(result, i, v):
+    result[i] = v
+
+
+@numba.jit(nopython=True, parallel=True)
+def through_callee_kw(result, vals):
+    for i in numba.prange(len(vals)):
+        callee_kw(result, i, v=vals[i])
+
+
 def run(kernel, args, cfg=None):
     out = Outcome()
     cfg = dict(cfg or {})
@@ -132,12 +157,27 @@ def main():
     res = np.zeros(1)
     out = run(last_writer, (res, np.arange(4.0) + 1))
     bad += expect("last writer wins: violation found", any(v["kind"] == "schedule_changes_result" for v in out.violations))
-    # scalar reduction is refused, not misrepresented
-    try:
-        transform_kernel(reduction.py_func, globals())
-        bad += expect("reduction refused", False)
-    except TransformError:
-        bad += expect("reduction refused", True)
+    # a floating-point scalar reduction depends on the worker count (Numba combines per-worker partial sums)
+    vals = 1.0 / (np.arange(50.0) + 3.0)
+    out = Outcome()
+    sim = parsim.Sim(5, {"K": 6, "worker_counts": [2, 7, 16]}, out)
+    k = parsim.SimKernel(sim, __name__, "reduction", reduction)
+    total = k(vals)
+    bad += expect("float reduction: flagged as schedule dependent", any(v["kind"] == "schedule_changes_result" for v in out.violations))
+    bad += expect("float reduction: serial value returned", abs(total - vals.sum()) < 1e-12)
+    out = Outcome()
+    sim = parsim.Sim(5, {"K": 6, "worker_counts": [2, 7, 16]}, out)
+    k = parsim.SimKernel(sim, __name__, "int_reduction", int_reduction)
+    total = k(np.arange(50))
+    bad += expect("integer reduction: exact, quiet", not out.violations and int(total) == 1225)
+    # prange with start and step
+    res = np.zeros(9)
+    out = run(strided, (res, np.arange(9.0)))
+    bad += expect("prange(start, stop, step): quiet and correct", not out.violations and np.array_equal(res[1::2], np.arange(9.0)[1::2] * 2) and not res[0::2].any())
+    # keyword arguments on a callee that writes a shared array
+    res = np.zeros(5)
+    out = run(through_callee_kw, (res, np.arange(5.0) + 1))
+    bad += expect("callee with keyword argument: interpreted, quiet", not out.violations and np.array_equal(res, np.arange(5.0) + 1))
     # a kernel whose summation order depends on numba.get_num_threads()
     res = np.zeros(1)
     vals = 1.0 / (np.arange(40.0) + 3.0)
